@@ -98,5 +98,27 @@ GROUP = {
             "loop_body_start": {0: FROM_STR_LOOP_START},
             "after_loop": {0: FROM_STR_AFTER_LOOP},
         }),
+        # ---- the extent of a number token inside the ledger parser: which characters the scanner takes (parse/primitive.rs)
+        ("raw", """
+pub assume_specification [char::is_ascii_digit] (c: &char) -> (r: bool)
+    ensures r == ('0' <= *c && *c <= '9');
+"""),
+        ("unit", {
+            "name": "callsite:primitive::pretty_decimal.token_chars", "file": "core/src/parse/primitive.rs", "path": [r"pub fn pretty_decimal<'a, I, E>"], "fn": "number_char", "no_canary": True,
+            "slice": r"let c = c\.as_char\(\);\s*([^}]*?)\s*\}\),", "slice_count": 1,
+            "slice_template": """fn number_char(c: char) -> (b: bool)
+    ensures
+        // C07 / C05: a number token is made of digits, commas and dots only - a minus sign can only LEAD it (it is taken by a separate
+        //            optional `-` in front, textual anchor below), so `1-2` is a subtraction and `1 -2` two tokens
+        b == (('0' <= c && c <= '9') || c == ',' || c == '.'),   // @primitive.pretty_decimal.token_is_digits_commas_dots
+{
+    {EXPR}
+}""",
+        }),
+        ("unit", {
+            "name": "anchor:primitive::pretty_decimal an optional leading minus, then the token, parsed by FromStr", "file": "core/src/parse/primitive.rs", "path": [r"pub fn pretty_decimal<'a, I, E>"], "no_canary": True,
+            "slice": r"(opt\(one_of\('-'\)\),\s*take_while\(1\.\.,)[\s\S]*?(\.take\(\)\s*\.try_map\(str::parse\))", "slice_count": 1, "slice_raw": True, "slice_groups": "all",
+            "slice_template": "/* anchor: {EXPR} */\n",
+        }),
     ],
 }
